@@ -23,21 +23,21 @@ same files with the same bytes and print the same lines: nothing is stale.
 namespace Ructe.C17Rerun
 open Nom
 
-variable (ue ua : Nat → Bool) (feat : MimeFeature) (outdir utils : Bytes)
+variable (ue ua : Nat → Bool) (feat : MimeFeature) (outdir utils base : Bytes)
 
 /-- a call looks at the tree only at its root path -/
-theorem resolve_congr (t₁ t₂ : InFS) (s : SOp) (h : ∀ q, s.root = some q → t₁ q = t₂ q) :
-    s.resolve t₁ = s.resolve t₂ := by
+theorem resolve_congr (t₁ t₂ : InFS) (s : SOp) (h : ∀ q, s.root base = some q → t₁ q = t₂ q) :
+    s.resolve base t₁ = s.resolve base t₂ := by
   cases s with
   | compileTemplates d => simp only [SOp.resolve, h d rfl]
   | addFile p =>
     simp only [SOp.resolve]
-    cases hn : nameAndExt (baseName p) with
+    cases hn : nameAndExt (baseName (pathFor base p)) with
     | none => rfl
-    | some v => simp only [h p (by simp [SOp.root, hn])]
-  | addFiles d => simp only [SOp.resolve, h d rfl]
+    | some v => simp only [h (pathFor base p) (by simp [SOp.root, hn])]
+  | addFiles d => simp only [SOp.resolve, h (pathFor base d) rfl]
   | addFileAs p u => rfl
-  | addFilesAs d to => simp only [SOp.resolve, h d rfl]
+  | addFilesAs d to => simp only [SOp.resolve, h (pathFor base d) rfl]
   | addFileData p data => rfl
 
 theorem withStatics_some (b : Build) : ∃ s, (b.withStatics feat).statics = some s := by
@@ -51,8 +51,8 @@ theorem failed_announces (b : Build) (st : Bool) (q : Bytes) :
   simp [Build.step, Log.print, Log.read, rerun]
 
 /-- every call that looks at a path prints that path's own line — whether it succeeds or fails -/
-theorem step_announces_root (t : InFS) (b : Build) (s : SOp) (q : Bytes) (hq : s.root = some q) :
-    rerun q ∈ (Build.step ue ua feat outdir b (s.resolve t)).out.stdout := by
+theorem step_announces_root (t : InFS) (b : Build) (s : SOp) (q : Bytes) (hq : s.root base = some q) :
+    rerun q ∈ (Build.step ue ua feat outdir b (s.resolve base t)).out.stdout := by
   cases s with
   | compileTemplates d =>
     simp only [SOp.root, Option.some.injEq] at hq; subst hq
@@ -65,7 +65,7 @@ theorem step_announces_root (t : InFS) (b : Build) (s : SOp) (q : Bytes) (hq : s
     · exact failed_announces ue ua feat outdir b _ _
   | addFile p =>
     simp only [SOp.root] at hq
-    cases hn : nameAndExt (baseName p) with
+    cases hn : nameAndExt (baseName (pathFor base p)) with
     | none => simp [hn] at hq
     | some v =>
       simp only [hn, Option.some.injEq] at hq; subst hq
@@ -98,8 +98,8 @@ theorem step_announces_root (t : InFS) (b : Build) (s : SOp) (q : Bytes) (hq : s
 
 /-- … and the line is still there at the end of the run -/
 theorem roots_announced (t : InFS) (script : List SOp) (b : Build)
-    (s : SOp) (hs : s ∈ script) (q : Bytes) (hq : s.root = some q) :
-    rerun q ∈ (((script.map (SOp.resolve t)).foldl (Build.step ue ua feat outdir) b).finish outdir).stdout := by
+    (s : SOp) (hs : s ∈ script) (q : Bytes) (hq : s.root base = some q) :
+    rerun q ∈ (((script.map (SOp.resolve base t)).foldl (Build.step ue ua feat outdir) b).finish outdir).stdout := by
   apply (Build.finish_grow outdir _).stdout.subset
   induction script generalizing b with
   | nil => cases hs
@@ -107,38 +107,38 @@ theorem roots_announced (t : InFS) (script : List SOp) (b : Build)
     simp only [List.map_cons, List.foldl_cons]
     rcases List.mem_cons.mp hs with rfl | hs'
     · exact (Build.foldl_step_grow ue ua feat outdir _ _).stdout.subset
-        (step_announces_root ue ua feat outdir t b s q hq)
+        (step_announces_root ue ua feat outdir base t b s q hq)
     · exact ih _ hs'
 
 /-- **rerun_sound**: the trees agree wherever the first run announced a path (cargo sees no reason to
 run the script again) ⇒ every call gets on the second tree exactly what it got on the first -/
 theorem rerun_sound (t₁ t₂ : InFS) (script : List SOp)
-    (hagree : ∀ q, rerun q ∈ (buildLog ue ua feat outdir utils (script.map (SOp.resolve t₁))).stdout → t₁ q = t₂ q) :
-    script.map (SOp.resolve t₂) = script.map (SOp.resolve t₁) := by
+    (hagree : ∀ q, rerun q ∈ (buildLog ue ua feat outdir utils (script.map (SOp.resolve base t₁))).stdout → t₁ q = t₂ q) :
+    script.map (SOp.resolve base t₂) = script.map (SOp.resolve base t₁) := by
   apply List.map_congr_left
   intro s hs
-  exact (resolve_congr t₁ t₂ s (fun q hq =>
-    hagree q (roots_announced ue ua feat outdir t₁ script _ s hs q hq))).symm
+  exact (resolve_congr base t₁ t₂ s (fun q hq =>
+    hagree q (roots_announced ue ua feat outdir base t₁ script _ s hs q hq))).symm
 
 /-- hence nothing is stale: a run on the edited tree would produce exactly what the first run
 produced — same requests, same bytes, same lines — on every prior OUT_DIR state -/
 theorem no_rerun_nothing_stale (fs : FS) (t₁ t₂ : InFS) (script : List SOp)
-    (hagree : ∀ q, rerun q ∈ (runScript ue ua feat fs outdir utils t₁ script).stdout → t₁ q = t₂ q) :
-    runScript ue ua feat fs outdir utils t₂ script = runScript ue ua feat fs outdir utils t₁ script := by
+    (hagree : ∀ q, rerun q ∈ (runScript ue ua feat fs outdir utils base t₁ script).stdout → t₁ q = t₂ q) :
+    runScript ue ua feat fs outdir utils base t₂ script = runScript ue ua feat fs outdir utils base t₁ script := by
   unfold runScript
-  rw [rerun_sound ue ua feat outdir utils t₁ t₂ script (fun q hq => hagree q (by simpa [runScript, build, runLog] using hq))]
+  rw [rerun_sound ue ua feat outdir utils base t₁ t₂ script (fun q hq => hagree q (by simpa [runScript, build, runLog] using hq))]
 
 /-- **change_triggers_rerun** (what the property says): if after an edit of the input tree a run of
 the build script would produce anything else than before (other bytes in some file, other lines, a
 call that now fails), then some path announced by the first run changed — cargo does run the script
 again -/
 theorem change_triggers_rerun (fs : FS) (t₁ t₂ : InFS) (script : List SOp)
-    (hne : runScript ue ua feat fs outdir utils t₂ script ≠ runScript ue ua feat fs outdir utils t₁ script) :
-    ∃ q, rerun q ∈ (runScript ue ua feat fs outdir utils t₁ script).stdout ∧ t₁ q ≠ t₂ q := by
+    (hne : runScript ue ua feat fs outdir utils base t₂ script ≠ runScript ue ua feat fs outdir utils base t₁ script) :
+    ∃ q, rerun q ∈ (runScript ue ua feat fs outdir utils base t₁ script).stdout ∧ t₁ q ≠ t₂ q := by
   apply Classical.byContradiction
   intro hno
   apply hne
-  apply no_rerun_nothing_stale ue ua feat outdir utils fs t₁ t₂ script
+  apply no_rerun_nothing_stale ue ua feat outdir utils base fs t₁ t₂ script
   intro q hq
   apply Classical.byContradiction
   intro hd
@@ -154,11 +154,12 @@ example :
     let t₁ : InFS := fun p => if p = [116] then some (.dir [.dir [115] []]) else if p = [97, 46, 98] then some (.file [1]) else none
     let t₂ : InFS := fun p => if p = [122] then some (.file [7]) else t₁ p
     let t₃ : InFS := fun p => if p = [97, 46, 98] then none else t₁ p
-    (SOp.addFile [97, 46, 98]).resolve t₁ = .addFile [97, 46, 98] [1] ∧
-    [SOp.compileTemplates [116], .addFile [97, 46, 98]].map (SOp.resolve t₂) =
-      [SOp.compileTemplates [116], .addFile [97, 46, 98]].map (SOp.resolve t₁) ∧
-    (SOp.addFile [97, 46, 98]).resolve t₃ = .failed true [97, 46, 98] := by
+    (SOp.addFile [97, 46, 98]).resolve [] t₁ = .addFile [97, 46, 98] [1] ∧
+    [SOp.compileTemplates [116], .addFile [97, 46, 98]].map (SOp.resolve [] t₂) =
+      [SOp.compileTemplates [116], .addFile [97, 46, 98]].map (SOp.resolve [] t₁) ∧
+    (SOp.addFile [97, 46, 98]).resolve [] t₃ = .failed true [97, 46, 98] := by
   intro t₁ t₂ t₃
-  refine ⟨?_, ?_, ?_⟩ <;> simp [SOp.resolve, ab_has_ext, t₁, t₂, t₃]
+  have hp : pathFor [] [97, 46, 98] = [97, 46, 98] := by decide
+  refine ⟨?_, ?_, ?_⟩ <;> simp [SOp.resolve, hp, ab_has_ext, t₁, t₂, t₃]
 
 end Ructe.C17Rerun
